@@ -17,7 +17,6 @@ Nothing is computed from the functions under test: snapshots and identity sets r
 import contextlib
 import copy
 import io
-import itertools
 import os
 import random
 import shutil
@@ -44,8 +43,10 @@ SPEC = {
              "partial points, positions, slices, every non-Ref iterator and dense co-iterator, & | ^ -, "
              "intersection/union, ==, emptiness/count/shape/depth/rank-id/min/max/active queries, str/repr/"
              "format/print, dump/fiber2dict, uncompress, Format.get*, Compute.numSwaps) on three tensors or free "
-             "fibers of the same geometry; (iii) `img`: TensorImage in styles tree / uncompressed / "
-             "tree+uncompressed rendered twice on tensors of rank 1-3 with empty coordinates inside the shape.  "
+             "fibers of the same geometry, compressed and 'U'-format ranks, plus a flattened (tuple-"
+             "coordinate, list-valued rank id) view; (iii) `img`: TensorImage in styles tree / uncompressed / "
+             "tree+uncompressed rendered twice on compressed-format tensors of rank 1-3 with missing, stored-empty "
+             "and all-default rows inside the upper rank's shape (and the root fiber on its own).  "
              "Non-trivial = the operand stores at least one element and, for `val`, the operation returned and at "
              "least one follow-up mutation was applied on each side; for `ro` at least 40 operations ran; for `img` "
              "all three styles rendered.  distinct = distinct case."),
@@ -53,10 +54,15 @@ SPEC = {
     "min_counts": {"quick": {"evaluations": 3000, "oracle_evals": 60000, "val_ops_returned": 2500,
                              "alias_checks": 2500, "followup_result_mutations": 5000,
                              "followup_operand_mutations": 5000, "ro_ops": 40000, "img_renders": 400,
-                             "img_pairs_compared": 150},
+                             "img_pairs_compared": 150, "ro:Fiber.iterShape[U]": 40,
+                             "ro:Fiber.coiterShape[U]": 40, "ro:Format.getFiber[absent]": 100,
+                             "ro:Compute.numSwaps": 80, "ro:Fiber.__or__": 300, "ro:Tensor.dump": 100,
+                             "val:Tensor.flattenRanks[flattened operand]": 15,
+                             "val:Tensor.unflattenRanks[flattened operand]": 30, "val:deepcopy(Tensor)": 20,
+                             "val:Tensor.swizzleRanks": 30, "val:Fiber:fiber+fiber": 40},
                    "thorough": {"evaluations": 20000, "oracle_evals": 600000, "val_ops_returned": 15000,
                                 "ro_ops": 400000, "img_renders": 3000}},
-    "budget_s": {"quick": 45, "thorough": 520},
+    "budget_s": {"quick": 40, "thorough": 520},
     "assumptions": [
         "ordered/unique fibers; integer coordinates (tuple coordinates only as produced by flattenRanks)",
         "saved-position statistics are not part of the snapshot (getPayload/getPosition with start_pos record them)",
@@ -146,6 +152,18 @@ def diffkind(s0, s1):
             kinds.append("tree")
         return "+".join(kinds) or "other"
     return {"F": "tree", "A": "rank-attrs", "V": "value"}.get(s0[0], "other")
+
+
+def alias_class(labels):
+    """One coarse class per aliasing witness (the most structural kind of object shared)."""
+    ls = set(labels)
+    if ls & {"fiber", "coords-list", "payloads-list", "rank", "rank-fibers-list", "tensor", "tensor-ranks-list"}:
+        return "structure"
+    if ls & {"rankattrs", "fiber-rankattrs", "rank-default-box", "shape-list"}:
+        return "rank-attrs"
+    if "rankid-list" in ls:
+        return "rankid-list"
+    return "leaf-boxes"
 
 
 def _add(out, obj, label):
@@ -631,7 +649,7 @@ def generate(rng, tier, shard, nshards, mon):
         idx += 1
     mon.exhaustive["fixed-trees-ro+img"] = True
     # (iii) random
-    nval, nro, nimg = ((4000, 288, 96) if tier == "quick" else (60000, 5000, 1800))
+    nval, nro, nimg = ((3600, 256, 80) if tier == "quick" else (60000, 5000, 1800))
     sched = ["val"] * 25 + ["ro"] * 2 + ["img"]
     n = (nval + nro + nimg) // nshards
     quota = {"val": nval // nshards, "ro": nro // nshards, "img": nimg // nshards}
@@ -1019,6 +1037,7 @@ def _run_val(case, mon):
                       f"{key} raised {type(raised).__name__}: {raised} on op={op} tree={cfg['spec']} shape={cfg.get('shape')} default={d}")
         return
     mon.count("val_ops_returned")
+    mon.count("val:" + key + ("[flattened operand]" if any(isinstance(r.getId(), list) for r in (T.ranks if T is not None else [])) else ""))
     if not mon.check(isinstance(res, (Tensor, Fiber, Rank, RankAttrs, Payload)), f"{key}:result-type",
                      f"{key} returned {type(res).__name__}"):
         return
@@ -1026,7 +1045,7 @@ def _run_val(case, mon):
     shared = sorted({lab for i, (lab, _) in resids.items() if i in opids})
     mon.count("alias_checks")
     mon.count("objects_compared", len(resids))
-    aclass = "leaf-boxes" if shared == ["box"] else "structure"
+    aclass = alias_class(shared)
     mon.check(not shared, f"{key}:alias:{aclass}",
               f"result of {key} shares mutable objects with its operand: {shared}; op={op} tree={cfg['spec']} default={d}")
     # follow-ups: mutate the result, the operand must not move
@@ -1094,6 +1113,7 @@ class _RO:
         mon = self.mon
         self.n += 1
         mon.count("ro_ops")
+        mon.count("ro:" + name)
         res = None
         try:
             res = thunk()
